@@ -114,15 +114,97 @@ func (r *runner) encode(t *target, v *tlref.Value) ([]byte, error) {
 }
 
 func (r *runner) draw(t *target, rnd tlref.Rand) *tlref.Value {
-	o := &tlref.GenOpts{MaxBytes: 600, Budget: 3000, MaxVec: 3}
+	return r.drawWith(t, rnd, &tlref.GenOpts{MaxBytes: 600, Budget: 3000, MaxVec: 3})
+}
+
+func (r *runner) drawWith(t *target, rnd tlref.Rand, o *tlref.GenOpts) *tlref.Value {
 	if t.con != nil {
 		return r.s.DrawObject(rnd, t.con, o)
 	}
 	return r.s.Draw(rnd, t.te, o)
 }
 
+// How the empty byte strings and vectors of a value are represented in the Go value handed to the
+// generated code. Go has two representations of an empty slice, nil (the zero value of the field: a
+// struct literal that does not mention the field, `var x []T`, append to nothing) and non-nil with length
+// 0 (make, what UnmarshalTL leaves behind). Both are the empty TL value: 4 zero bytes for bytes, count 0
+// for a vector, present on the wire whenever the schema says the field is present.
+const (
+	slicesMade  = iota // every empty slice is non-nil (as tlbind builds them)
+	slicesNil          // every empty slice is nil
+	slicesMixed        // drawn per slice
+)
+
+// emptyForms is the number of all-empty values checked per target (one per slice form).
+const emptyForms = 3
+
+var sliceFormNames = [...]string{"non-nil", "nil", "nil or non-nil, drawn per slice"}
+
+// setSliceForm rewrites the empty slices inside the Go value x (settable) according to form. It follows
+// struct fields, non-nil pointers and the elements of non-empty slices. It returns how many empty slices
+// became nil and how many stayed non-nil.
+func setSliceForm(x reflect.Value, form int, rnd tlref.Rand) (nils, made int) {
+	switch x.Kind() {
+	case reflect.Struct:
+		for i := 0; i < x.NumField(); i++ {
+			a, b := setSliceForm(x.Field(i), form, rnd)
+			nils, made = nils+a, made+b
+		}
+	case reflect.Pointer:
+		if !x.IsNil() {
+			return setSliceForm(x.Elem(), form, rnd)
+		}
+	case reflect.Slice:
+		if x.Len() == 0 {
+			if form == slicesNil || form == slicesMixed && rnd.Intn("slice.nil", 2) == 0 {
+				x.Set(reflect.Zero(x.Type()))
+				return 1, 0
+			}
+			if x.IsNil() { // a field tlbind left untouched (absent conditional field)
+				x.Set(reflect.MakeSlice(x.Type(), 0, 0))
+			}
+			return 0, 1
+		}
+		if x.Type().Elem().Kind() == reflect.Uint8 {
+			return 0, 0
+		}
+		for i := 0; i < x.Len(); i++ {
+			a, b := setSliceForm(x.Index(i), form, rnd)
+			nils, made = nils+a, made+b
+		}
+	}
+	return nils, made
+}
+
+// emptyPresentCond counts, at any depth of v, the conditional bytes / vector fields that are present
+// (flag bit set) and empty.
+func emptyPresentCond(v *tlref.Value) int {
+	if v == nil {
+		return 0
+	}
+	n := 0
+	switch v.Kind {
+	case tlref.KVector:
+		for _, e := range v.Elems {
+			n += emptyPresentCond(e)
+		}
+	case tlref.KObject:
+		for i, f := range v.Con.Fields {
+			fv := v.Fields[i]
+			if fv == nil {
+				continue
+			}
+			if f.Cond != "" && (f.Type.Kind == tlref.KBytes && len(fv.Bytes) == 0 || f.Type.Kind == tlref.KVector && len(fv.Elems) == 0) {
+				n++
+			}
+			n += emptyPresentCond(fv)
+		}
+	}
+	return n
+}
+
 // codec checks MarshalTL and tl.Unmarshal of one value. It returns the reference bytes.
-func (r *runner) codec(t *target, v *tlref.Value, stale func(tlref.Field) *tlref.Value) (want []byte, gv reflect.Value, ok bool) {
+func (r *runner) codec(t *target, v *tlref.Value, stale func(tlref.Field) *tlref.Value, form int, formRnd tlref.Rand) (want []byte, gv reflect.Value, ok bool) {
 	want, err := r.encode(t, v)
 	if err != nil {
 		r.fail(0, "harness error: reference encoder on %s: %v", t.name, err)
@@ -133,14 +215,19 @@ func (r *runner) codec(t *target, v *tlref.Value, stale func(tlref.Field) *tlref
 		r.fail(len(want), "harness error: populating %v: %v", t.goType, err)
 		return nil, gv, false
 	}
+	nils, _ := setSliceForm(gv, form, formRnd)
+	goForm := ""
+	if nils > 0 {
+		goForm = fmt.Sprintf("\nGo value: %d of its empty byte strings / vectors are nil slices (%s)", nils, sliceFormNames[form])
+	}
 	if m, isM := gv.Interface().(tl.MarshalerTL); isM {
 		got, err := m.MarshalTL()
 		if err != nil {
-			r.fail(len(want), "%s: MarshalTL of %s: %v", t.name, v, err)
+			r.fail(len(want), "%s: MarshalTL of %s: %v%s", t.name, v, err, goForm)
 			return want, gv, false
 		}
 		if !bytes.Equal(got, want) {
-			r.fail(len(want), "%s: MarshalTL differs from the layout the schema defines (generated code / reference): %s\nvalue %s", t.name, diffAt(got, want), v)
+			r.fail(len(want), "%s: MarshalTL differs from the layout the schema defines (generated code / reference): %s\nvalue %s%s", t.name, diffAt(got, want), v, goForm)
 			return want, gv, false
 		}
 	} else if len(want) != 0 || t.fn == nil {
@@ -334,16 +421,33 @@ func RunEntry(e Entry, seed uint64, perTarget int) (res Result) {
 	}
 	res.Targets = len(targets)
 	for ti, t := range targets {
-		for k := 0; k < perTarget; k++ {
+		// The last emptyForms values of a target are the all-empty ones: every flag bit used by a
+		// conditional field set, every top-level byte string and vector empty, once per slice form.
+		for k := 0; k < perTarget+emptyForms; k++ {
 			rnd := tlref.NewSeedRand(seed ^ uint64(ti+1)*0x9e3779b97f4a7c15 ^ uint64(k+1)*0xbf58476d1ce4e5b9)
-			v := r.draw(t, rnd)
+			// the slice forms have their own source, so that the drawn values do not depend on them
+			formRnd := tlref.NewSeedRand(seed ^ uint64(ti+1)*0xd6e8feb86659fd93 ^ uint64(k+1)*0xa0761d6478bd642f ^ 0x5ce)
+			var v *tlref.Value
+			form := slicesMade
+			if k < perTarget {
+				v = r.draw(t, rnd)
+				switch formRnd.Intn("slice.form", 4) {
+				case 1, 2:
+					form = slicesNil
+				case 3:
+					form = slicesMixed
+				}
+			} else {
+				v = r.drawWith(t, rnd, &tlref.GenOpts{MaxBytes: 600, Budget: 3000, MaxVec: 3, AllBits: true, ForceLen: true, BytesLen: 0, ForceVec: true, VecLen: 0})
+				form = [emptyForms]int{slicesNil, slicesMade, slicesMixed}[k-perTarget]
+			}
 			var stale func(tlref.Field) *tlref.Value
 			if rnd.Intn("stale", 4) == 0 {
 				stale = func(f tlref.Field) *tlref.Value {
 					return s.Draw(rnd, f.Type, &tlref.GenOpts{MaxBytes: 20, MaxVec: 2})
 				}
 			}
-			want, gv, ok := r.codec(t, v, stale)
+			want, gv, ok := r.codec(t, v, stale, form, formRnd)
 			res.Values++
 			ft := s.Inspect(v)
 			if ft.ModeBits > 0 {
@@ -353,6 +457,9 @@ func RunEntry(e Entry, seed uint64, perTarget int) (res Result) {
 				h.Write([]byte(t.name))
 				h.Write(want)
 				r.seen[h.Sum64()] = struct{}{}
+			}
+			if emptyPresentCond(v) > 0 {
+				res.Classes["value with a present conditional bytes/vector field that is empty, Go slice "+sliceFormNames[form]]++
 			}
 			if ft.LongBytes > 0 {
 				res.Classes["value with a byte string >= 254"]++
